@@ -115,6 +115,9 @@ class Tokenizer:
                 # escaped backslash, kept as is
                 return m.group(0)
             num = int(m.group(0)[1:], 16)
+            if num == 0x5C:
+                # values keep simple escapes so a backslash must stay escaped
+                return '\\\\'
             if num <= sys.maxunicode:
                 return chr(num)
             else:
